@@ -1,7 +1,7 @@
 #!/bin/bash
 # tools/trymutant.sh <Cnn> <patch> [tier]  — applies a seeded change to /repo, runs the check, and reverts.
 set -u
-prop=$1; patch=$2; tier=${3:-quick}
+prop=$1; patch=$(readlink -f "$2"); tier=${3:-quick}
 cd /repo || exit 2
 if [ -n "$(git status --porcelain)" ]; then echo "/repo not clean"; exit 2; fi
 git apply "$patch" || { echo "patch does not apply"; exit 2; }
